@@ -62,6 +62,31 @@ theorem foldSorted_order_independent {V β : Type} (f : β → Key × V → β) 
   unfold foldSorted
   rw [sort_entries_order_independent l₁ l₂ h hn]
 
+/-- "iterate the sorted keys, collect one error per failing entry" (the shape of
+`TypedMapType.IsValidExpression`, `StructType.IsValidExpression`, `isValidSplit`
+since the F15 fixes): the reported error list does not depend on the map order. -/
+theorem collectErrors_order_independent {V E : Type} (check : Key → V → Option E)
+    (l₁ l₂ : List (Key × V)) (h : l₁.Perm l₂) (hn : nodupKeys l₁ = true) :
+    collectErrors check l₁ = collectErrors check l₂ := by
+  unfold collectErrors
+  rw [sort_entries_order_independent l₁ l₂ h hn]
+
+/-- "collect the offending keys, sort, report the first" (`MergeMapCallSources`):
+the key named in `map key missing "k"` depends on neither map's order. -/
+theorem firstMissing_order_independent (ka ka' kb kb' : List Key) (ha : ka.Perm ka') (hb : kb.Perm kb') :
+    firstMissing ka kb = firstMissing ka' kb' := by
+  unfold firstMissing
+  have hf : (fun k => !kb.contains k) = (fun k => !kb'.contains k) := by
+    funext k; rw [contains_perm hb k]
+  rw [hf, sort_keys_order_independent _ _ (ha.filter _)]
+
+/-- Nested maps (a `MapExp` inside a `MapExp`, map-valued entries of
+`marshallerMap` / `ResolvedBindingMap` …): if every level is emitted in sorted
+key order, the bytes do not depend on the order in which ANY object at ANY depth
+was handed over. -/
+theorem nested_emit_order_independent (a b : JTree) (h : JTree.Reorder a b) (hw : a.wf = true) :
+    a.emit = b.emit := (reorder_aux h hw).2.2.1
+
 /-! Non-vacuity: a three-entry map, two orders, one output. -/
 private def e (k : Nat) (s : Bool) : Key × Rendered := ([k, 49], { keyText := [k, 49], single := s, text := [48 + k % 10] })
 example : nodupKeys [e 99 true, e 97 false, e 98 true] = true := by decide
@@ -71,5 +96,15 @@ example : mapFormat true [] [32] [e 99 true, e 97 false, e 98 true]
   mapFormat_order_independent true [] [32] _ _ (by decide) (by decide)
 /-- Without the sort the output would depend on the order (the theorem is not trivial). -/
 example : ([e 99 true, e 97 false].map (·.1)) ≠ ([e 97 false, e 99 true].map (·.1)) := by decide
+
+private def inner (x y : Nat) : JTree :=
+  .ocons [x] [34, x, 34] (.leaf [x]) (.ocons [y] [34, y, 34] (.leaf [y]) .onil)
+example : (JTree.ocons [97] [34, 97, 34] (inner 120 121) (.ocons [98] [34, 98, 34] (.leaf [51]) .onil)).wf = true := by decide
+/-- the inner object's entries swapped and the outer entries swapped: still a reordering -/
+example : JTree.Reorder
+    (.ocons [97] [34, 97, 34] (inner 120 121) (.ocons [98] [34, 98, 34] (.leaf [51]) .onil))
+    (.ocons [98] [34, 98, 34] (.leaf [51]) (.ocons [97] [34, 97, 34] (inner 121 120) .onil)) :=
+  .trans (.congr _ _ (.swap ..) (.refl _)) (.swap ..)
+example : ([[99], [97], [98]] : List Key).Perm [[97], [98], [99]] := by decide
 
 end Props.C10
